@@ -1,3 +1,317 @@
+// eng_crash.rs — C11: process kill enumerated at every mutation index (and torn prefixes of every
+// write) of a victim build/clean; every crash image is audited and recovered by a fresh build.
+
 use super::*;
-pub fn run_one(_cfg : &Config, _seed : u64, _k : u64, _stats : &mut Stats) -> Vec<Found> { vec![] }
-pub fn replay(_case : &Case, _index : u32, _torn : Option<u32>, _rec : &SchedSpec) -> Vec<(String, String)> { vec![] }
+use super::super::hist::{audit_cache, conserved_contents, invoke, oracle_c01, in_cache, in_ruler_dir, table_path, history_dir};
+use super::super::model::{self, Outcome};
+use super::super::simsys::{World, Disk, CrashPoint};
+use super::super::scen::RULER_DIR;
+
+fn file_class(path : &str, targets : &BTreeSet<String>) -> &'static str
+{
+    if path == table_path() || path == format!("{}.tmp", table_path()) { "table-file" }
+    else if path.starts_with(&format!("{}/", history_dir())) { "history-file" }
+    else if in_cache(path) { "cache-entry" }
+    else if in_ruler_dir(path) { "ruler-directory" }
+    else if targets.contains(path) { "target" }
+    else { "other" }
+}
+
+pub struct CrashFinding
+{
+    pub v : Violation,
+    pub index : u32,
+    pub torn : Option<u32>,
+}
+
+pub struct Caps
+{
+    pub max_states : usize,       // per victim execution (0 = all)
+    pub torn_state_all : bool,    // every strict prefix of state-file writes up to 512 bytes
+    pub torn_samples : usize,
+    pub recovery_sampled : bool,  // also recover under one sampled schedule
+}
+
+/* Build the disk a kill would leave: the snapshot before mutation `cp.index`, optionally with the
+   first `torn` bytes of that write applied. */
+fn crash_disk(cp : &CrashPoint, torn : Option<u32>) -> Disk
+{
+    let mut d = cp.before.clone();
+    if let (Some(n), Some((inode, pos, buf))) = (torn, &cp.write)
+    {
+        let n = std::cmp::min(n as usize, buf.len());
+        d.write_at(*inode, *pos, &buf[..n], cp.clock + 1);
+    }
+    d
+}
+
+/* Run the history of `case` up to its last op (the victim), execute the victim under its own
+   schedule while recording crash points, and examine the crash states.
+   `only`: examine just this (index, torn) state (replay); otherwise all, subject to `caps`. */
+pub fn explore(case : &Case, caps : &Caps, only : Option<(u32, Option<u32>)>, recovery : &SchedSpec, rng : &mut Rng, mut stats : Option<&mut Stats>) -> Vec<CrashFinding>
+{
+    let mut out = vec![];
+    if case.ops.len() == 0 { return out; }
+    let mut runner = Runner::new(case);
+    let victim = case.ops.len() - 1;
+    while runner.next_op < victim
+    {
+        if let Some(inv) = runner.step() { runner.absorb(&inv); }
+    }
+    let (is_build, goal, sched) = match &case.ops[victim]
+    {
+        Op::Build{ goal, sched } => (true, goal.clone(), sched.clone()),
+        Op::Clean{ goal, sched } => (false, goal.clone(), sched.clone()),
+        _ => return out,
+    };
+
+    let pre = runner.world.snapshot();
+    runner.world.start_crash_recording();
+    let inv = runner.invocation(victim, is_build, goal.clone(), sched.clone());
+    let cps = runner.world.take_crash_points();
+    if let Some(s) = stats.as_deref_mut()
+    {
+        s.note_invocation(&inv, sched.name());
+        s.add("c11.mutations_in_victim_executions", cps.len() as u64);
+        s.inc("c11.victim_executions");
+    }
+    if !inv.res.verdict.returned()
+    {
+        return out;     // C05's business
+    }
+
+    let rules = runner.rules.clone();
+    let mut target_paths : BTreeSet<String> = runner.ever_targets.clone();
+    for r in rules.iter() { for t in r.targets.iter() { target_paths.insert(t.clone()); } }
+    let pre_contents = conserved_contents(&pre.0, &target_paths);
+    // reference outputs of the victim build (for the narrow conservation exemption)
+    let victim_expected : BTreeMap<String, Vec<u8>> = match &inv.model
+    {
+        Ok(m) => m.outcomes.values().flat_map(|o| match o { Outcome::Built(ts) => ts.iter().map(|(t, b, _)| (t.clone(), b.clone())).collect::<Vec<_>>(), _ => vec![] }).collect(),
+        Err(_) => BTreeMap::new(),
+    };
+
+    // which crash states to examine
+    let mut states : Vec<(usize, Option<u32>)> = vec![];
+    for (i, cp) in cps.iter().enumerate()
+    {
+        states.push((i, None));
+        if let Some((_, _, buf)) = &cp.write
+        {
+            let l = buf.len();
+            if l >= 2
+            {
+                let is_state = in_ruler_dir(&cp.path) && !in_cache(&cp.path);
+                if is_state && caps.torn_state_all && l <= 512
+                {
+                    for n in 1..l { states.push((i, Some(n as u32))); }
+                }
+                else
+                {
+                    let mut offs = BTreeSet::new();
+                    offs.insert(1u32);
+                    offs.insert((l - 1) as u32);
+                    for _ in 0..caps.torn_samples { offs.insert(1 + rng.below((l - 1) as u64) as u32); }
+                    for n in offs { states.push((i, Some(n))); }
+                }
+            }
+        }
+    }
+    if let Some((idx, torn)) = only
+    {
+        states.retain(|(i, t)| cps[*i].index == idx && *t == torn);
+    }
+    else if caps.max_states > 0 && states.len() > caps.max_states
+    {
+        // always keep every point inside a state-file create..write window and inside a command
+        let mut keep : Vec<(usize, Option<u32>)> = vec![];
+        let mut rest : Vec<(usize, Option<u32>)> = vec![];
+        for st in states
+        {
+            let cp = &cps[st.0];
+            let prev_is_state_create = st.0 > 0 && cps[st.0 - 1].op == FsOp::CreateFile && in_ruler_dir(&cps[st.0 - 1].path) && !in_cache(&cps[st.0 - 1].path);
+            let important = cp.origin == Origin::Command || (prev_is_state_create && st.1.is_none())
+                || (in_ruler_dir(&cp.path) && !in_cache(&cp.path) && st.1.map(|n| n <= 2).unwrap_or(true));
+            if important { keep.push(st); } else { rest.push(st); }
+        }
+        rng.shuffle(&mut rest);
+        while keep.len() < caps.max_states && rest.len() > 0 { keep.push(rest.pop().unwrap()); }
+        keep.sort();
+        states = keep;
+    }
+
+    for (i, torn) in states
+    {
+        let cp = &cps[i];
+        let disk = crash_disk(cp, torn);
+        let whence = format!("kill before mutation {} ({:?} {} by {:?}){}", cp.index, cp.op, cp.path, cp.origin,
+            match torn { Some(n) => format!(", {} bytes of the write applied", n), None => "".to_string() });
+        let class = format!("{:?}:{}:{:?}:{}", cp.op, file_class(&cp.path, &target_paths), cp.origin, if torn.is_some() { "torn" } else { "whole" });
+
+        let mut vs : Vec<Violation> = vec![];
+
+        // (1) the cache is still content-addressed
+        let mut audit = vec![];
+        audit_cache(&disk, &whence, &mut audit);
+        for a in audit { vs.push(Violation{ prop : "C11", sig : format!("C11:{}", a.sig), detail : a.detail }); }
+
+        // (2) nothing that existed before the invocation has been lost
+        let now = conserved_contents(&disk, &target_paths);
+        for (c, wher) in pre_contents.iter()
+        {
+            if now.contains_key(c) { continue; }
+            // narrow exemption: the in-flight command has truncated a target that held exactly the
+            // bytes it is regenerating for that very target (the AlreadyCorrect / just-recovered
+            // sibling of a multi-target rule whose command has to run); step (3) verifies that the
+            // recovery build does regenerate them
+            let exempt = cps[..i].iter().any(|q|
+                q.origin == Origin::Command && q.op == FsOp::CreateFile
+                && q.before.read(&q.path).map(|b| *b == *c).unwrap_or(false)
+                && victim_expected.get(&q.path).map(|b| *b == *c).unwrap_or(false));
+            if exempt
+            {
+                if let Some(s) = stats.as_deref_mut() { s.inc("c11.conservation_exemption_used"); }
+                continue;
+            }
+            vs.push(Violation{ prop : "C11", sig : format!("C11:content-lost-at-crash:{}", if wher.starts_with("cache") { "was-in-cache" } else { "was-at-target" }),
+                detail : format!("{}: bytes {} ({} before the invocation) are nowhere at a target path or in the cache", whence, super::super::util::show_bytes(c), wher) });
+        }
+
+        // (3) the next build recovers: fresh process, nothing but the disk survives
+        let mut recoveries = vec![recovery.clone()];
+        if caps.recovery_sampled { recoveries.push(SchedSpec::random(rng)); }
+        for rsched in recoveries
+        {
+            let world = World::from_disk(case.knobs.clone(), RULER_DIR, disk.clone(), cp.clock + 10);
+            let reader = { let d = disk.clone(); move |p : &str| d.read(p).map(|a| (*a).clone()) };
+            let m = model::evaluate(&rules, None, &reader);
+            let res = invoke(&world, true, None, case.rulefile_paths(), rsched);
+            let after = world.snapshot().0;
+            let rinv = Inv{ op_index : victim, is_build : true, goal : None, rules : rules.clone(), before : disk.clone(), after : after, res : res, model : m };
+            if let Some(s) = stats.as_deref_mut() { s.inc("evaluations"); s.inc("c11.recovery_builds"); }
+            let expected_ok = match &rinv.model { Ok(m) => m.all_built() && m.missing_leaves.len() == 0, Err(_) => false };
+            if !expected_ok { continue; }
+            match &rinv.res.verdict
+            {
+                Verdict::Ok =>
+                {
+                    for v in oracle_c01(&rinv)
+                    {
+                        vs.push(Violation{ prop : "C11", sig : v.sig.replace("C01:", "C11:recovery-build-wrong:"), detail : format!("{}: recovery build: {}", whence, v.detail) });
+                    }
+                    let mut audit = vec![];
+                    audit_cache(&rinv.after, "after recovery", &mut audit);
+                    for a in audit { vs.push(Violation{ prop : "C11", sig : format!("C11:after-recovery:{}", a.sig), detail : format!("{}: {}", whence, a.detail) }); }
+                },
+                other =>
+                {
+                    vs.push(Violation{ prop : "C11", sig : format!("C11:recovery-failed:{}", hist::sig_of_verdict(other)),
+                        detail : format!("{}: the next build returned {}", whence, other.short()) });
+                },
+            }
+        }
+
+        if let Some(s) = stats.as_deref_mut()
+        {
+            s.inc("c11.crash_states");
+            s.inc(&format!("fault.kill.{}", if torn.is_some() { "torn_write" } else { "between_mutations" }));
+            let differs_pre = disk.image() != pre.0.image();
+            let differs_post = disk.image() != inv.after.image();
+            if differs_pre && differs_post
+            {
+                s.distinct.insert(H64::new().str(&class).get());
+                s.inc("c11.crash_states_strictly_inside");
+            }
+            s.inc(&format!("c11.class.{}", class));
+        }
+        for v in vs
+        {
+            out.push(CrashFinding{ v : v, index : cp.index, torn : torn });
+        }
+    }
+    out
+}
+
+fn caps_for(thorough : bool) -> Caps
+{
+    if thorough { Caps{ max_states : 0, torn_state_all : true, torn_samples : 8, recovery_sampled : true } }
+    else { Caps{ max_states : 150, torn_state_all : false, torn_samples : 3, recovery_sampled : false } }
+}
+
+pub fn replay(case : &Case, index : u32, torn : Option<u32>, recovery : &SchedSpec) -> Vec<(String, String)>
+{
+    let caps = Caps{ max_states : 0, torn_state_all : true, torn_samples : 0, recovery_sampled : false };
+    let mut rng = Rng::new(1);
+    explore(case, &caps, Some((index, torn)), recovery, &mut rng, None).into_iter().map(|f| (f.v.sig, f.v.detail)).collect()
+}
+
+pub fn run_one(cfg : &Config, seed : u64, k : u64, stats : &mut Stats) -> Vec<Found>
+{
+    let mut rng = Rng::derive(seed, 3);
+    let mut g = GenCfg::base(cfg.thorough);
+    g.max_rules = rng.range(1, if cfg.thorough { 10 } else { 6 });
+    g.max_ops = 4;
+    g.min_ops = 0;
+    g.end_with_build = false;
+    g.failing = false;
+    g.missing_leaves = false;
+    g.goals = rng.chance(1, 2);
+    g.cleans = *rng.pick(&[0u64, 10, 25]);
+    g.exec = rng.chance(1, 2);
+    g.shared_pool = rng.chance(1, 2);
+    let mut gen = Gen::new(seed, g);
+    let mut case = gen.case();
+    let goal = if rng.chance(1, 4) { let ts : Vec<String> = gen.current_rules().iter().flat_map(|r| r.targets.clone()).collect(); if ts.len() > 0 { Some(rng.pick(&ts).clone()) } else { None } } else { None };
+    let victim_clean = rng.chance(1, 4);
+    case.ops.push(if victim_clean { Op::Clean{ goal, sched : SchedSpec::serial() } } else { Op::Build{ goal, sched : SchedSpec::serial() } });
+    let victim = case.ops.len() - 1;
+    if k < 3 * cfg.workers { stats.sample(case.to_j().set("victim_op", J::Int(victim as i64))); }
+
+    let caps = caps_for(cfg.thorough);
+    let n_sched = if cfg.thorough { 1 + 4 } else { 1 + 2 };
+    let mut found : Vec<Found> = vec![];
+    for j in 0..n_sched
+    {
+        let sched = if j == 0 { SchedSpec::serial() } else { SchedSpec::random(&mut rng) };
+        // make the victim schedule explicit so that the replay does not depend on the PRNG
+        let mut c = case.clone();
+        set_sched(&mut c.ops[victim], sched);
+        let c = explicit_schedules(&c);
+        let fs = explore(&c, &caps, None, &SchedSpec::serial(), &mut rng, Some(stats));
+        let mut seen = BTreeSet::new();
+        for f in fs
+        {
+            if !seen.insert(f.v.sig.clone()) || found.iter().any(|x| x.sig == f.v.sig) { continue; }
+            // minimise the history; the crash index is re-found in the smaller case
+            let sig = f.v.sig.clone();
+            let all = Caps{ max_states : 0, torn_state_all : false, torn_samples : 1, recovery_sampled : false };
+            let test = {
+                let sig = sig.clone();
+                move |cand : &Case|
+                {
+                    let mut r = Rng::new(7);
+                    match cand.ops.last() { Some(Op::Build{..}) | Some(Op::Clean{..}) => {}, _ => return false }
+                    explore(cand, &Caps{ max_states : 0, torn_state_all : false, torn_samples : 1, recovery_sampled : false }, None, &SchedSpec::serial(), &mut r, None).iter().any(|x| x.v.sig == sig)
+                }
+            };
+            let small = if test(&c) { minimize_with_budget(&c, &test, 120) } else { c.clone() };
+            let mut r = Rng::new(7);
+            let again = explore(&small, &all, None, &SchedSpec::serial(), &mut r, None);
+            let (case_final, index, torn, detail) = match again.into_iter().find(|x| x.v.sig == sig)
+            {
+                Some(x) => (small, x.index, x.torn, x.v.detail),
+                None => (c.clone(), f.index, f.torn, f.v.detail.clone()),
+            };
+            found.push(Found
+            {
+                prop : "C11".to_string(),
+                sig : sig,
+                detail : detail,
+                explain : case_final.to_j().set("crash_before_mutation", J::Int(index as i64)).set("torn_bytes_applied", match torn { Some(n) => J::Int(n as i64), None => J::Null }),
+                replay : Replay::Crash{ case : case_final, index : index, torn : torn, recovery : SchedSpec::serial() },
+            });
+        }
+    }
+    stats.inc("runs");
+    found
+}
